@@ -26,7 +26,8 @@ LEAN_MODULES = ["MesaModel.Props.C01"]
 THEOREMS = ["Mesa.Rng." + t for t in (
     "C01_no_global_sites", "C01_sites_nonempty", "C01_sorted_pick_hashorder_independent",
     "C01_shuffle_perm", "C01_shuffle_deterministic", "C01_reseed_replays", "C01_derived_carry_generator")]
-COUNTS = {"quick": 24, "thorough": 400}
+COUNTS = {"quick": 24, "thorough": 240}
+WATCHDOG = 400
 HEADER_LINES = 0
 TRUSTED = [
     "Mersenne Twister / PCG64 and CPython's random.Random algorithms above _randbelow; numpy, networkx, scipy internals",
